@@ -9,6 +9,8 @@
   the code returns on the same input.
 -/
 import TephraModel.Fam.SpanOps
+import TephraModel.Fam.Nav
+import TephraModel.Fam.Lines
 
 open Tephra
 
@@ -17,6 +19,9 @@ def handle (line : String) : String :=
   | fam :: fields =>
     let (m, v) :=
       if fam == "spanops" then Fam.SpanOps.run fields
+      else if fam == "nav" then Fam.Nav.run fields
+      else if fam == "lines" then Fam.Lines.run fields
+      else if fam == "window" then Fam.Window.run fields
       else ("?", "FAIL unknown family " ++ fam)
     m ++ "\t" ++ v
   | [] => "?\tFAIL empty line"
